@@ -1281,6 +1281,33 @@ Proof. unfold add_node. destruct (has_node G n g); [auto|]. destruct g as [|[[|c
 Lemma out_first_upd_adj u v r g : out_first G g = true -> out_first G (upd_adj G u v r g) = true.
 Proof. destruct g as [|[[|c] a] tl]; cbn; intros H; try discriminate. destruct (node_eqb G u (NOut G)); reflexivity. Qed.
 
+Lemma g_nodes_remove_edge u v g : g_nodes G (remove_edge G u v g) = g_nodes G g.
+Proof.
+  unfold g_nodes, remove_edge. rewrite map_map. apply map_ext. intros [n a]. cbn. destruct (node_eqb G u n); reflexivity.
+Qed.
+
+Lemma NoDup_map_filter {X Y} (f : X -> Y) (p : X -> bool) l : NoDup (map f l) -> NoDup (map f (filter p l)).
+Proof.
+  induction l as [|x tl IH]; cbn; intros ND; [constructor|]. inversion ND as [|? ? N ND']; subst.
+  destruct (p x); cbn; [|apply IH; exact ND']. constructor; [|apply IH; exact ND'].
+  intro Hin. apply N. apply in_map_iff in Hin. destruct Hin as [y [E Hy]]. apply filter_In in Hy.
+  apply in_map_iff. exists y. split; [exact E | apply Hy].
+Qed.
+
+Lemma wfP_remove_edge u v g : wfP g -> wfP (remove_edge G u v g).
+Proof.
+  intros [ND P]. split; [rewrite g_nodes_remove_edge; exact ND|].
+  intros n adj Hin. rewrite g_nodes_remove_edge. unfold remove_edge in Hin. apply in_map_iff in Hin.
+  destruct Hin as [[m a] [E Hm]]. cbn in E. destruct (P _ _ Hm) as [A B].
+  destruct (node_eqb G u m); inversion E; subst; [|split; assumption]. split.
+  - apply NoDup_map_filter. exact A.
+  - intros w Hw. apply B. apply in_map_iff in Hw. destruct Hw as [y [Ey Hy]]. apply filter_In in Hy.
+    apply in_map_iff. exists y. split; [exact Ey | apply Hy].
+Qed.
+
+Lemma out_first_remove_edge u v g : out_first G g = true -> out_first G (remove_edge G u v g) = true.
+Proof. destruct g as [|[[|c] a] tl]; cbn; intros H; try discriminate. destruct (node_eqb G u (NOut G)); reflexivity. Qed.
+
 Lemma builder_invariant ops : wfP (run_bops G ops) /\ out_first G (run_bops G ops) = true.
 Proof.
   unfold run_bops.
@@ -1289,9 +1316,10 @@ Proof.
     - cbn. constructor; [intros [] | constructor].
     - intros n adj [Hin|[]]. inversion Hin; subst. split; [constructor | intros v []]. }
   revert Base. generalize (fresh_builder G). induction ops as [|o ops IH]; intros g [W O]; cbn [fold_left]; [split; assumption|].
-  apply IH. destruct o as [c|u v r]; cbn [run_bop].
+  apply IH. destruct o as [c|u v r|u v]; cbn [run_bop].
   - split; [apply wfP_add_node; exact W | apply out_first_add_node; exact O].
   - split; [apply wfP_add_edge; exact W|]. unfold add_edge. apply out_first_upd_adj. apply out_first_add_node. apply out_first_add_node. exact O.
+  - split; [apply wfP_remove_edge; exact W | apply out_first_remove_edge; exact O].
 Qed.
 
 Lemma builder_cs_ok ops t : cs_ok G (mkCs G (run_bops G ops) t) = true.
@@ -2262,4 +2290,16 @@ Lemma key_separates_frames_length G dumps digest (H : string -> digest)
 Proof.
   intros W bytes d L N HS. apply key_separates_dataset; [exact HS|].
   apply (ds_bytes_length_sep rowhash repr_names repr_index repr_dtypes W f g L N).
+Qed.
+
+Lemma remove_flow_keeps_guards_thm :
+  forall G, engine_ok G -> forall (u v : node G) (g : graph G),
+    graph_wf G g = true -> out_first G g = true ->
+    graph_wf G (remove_edge G u v g) = true /\ out_first G (remove_edge G u v g) = true /\
+    g_nodes G (remove_edge G u v g) = g_nodes G g.
+Proof.
+  intros G GOK u v g W O. destruct (graph_wf_props G GOK g W) as [ND P]. split; [|split].
+  - apply (wfP_graph_wf G GOK). apply wfP_remove_edge. split; assumption.
+  - apply out_first_remove_edge. exact O.
+  - apply g_nodes_remove_edge.
 Qed.
